@@ -23,7 +23,10 @@ ANG = {0: 0.0, 1: 90.0, 2: 180.0, 3: -90.0}
 def _rotvec_mat(m, rv):
     f = m["pyins"]._numba_integrate.mat_from_rotvec
     out = np.empty((3, 3))
-    f(np.asarray(rv, dtype=float), out)
+    try:
+        f(np.asarray(rv, dtype=float), out)
+    except Exception as e:          # a compiled function: its frames are not on the traceback
+        raise exc.LibraryRaised("mat_from_rotvec(%s) raised %s: %s" % (np.asarray(rv).tolist(), type(e).__name__, e))
     return out
 
 
